@@ -668,8 +668,10 @@ package redis
 // ---- C09: completion latches of the redis processor ----------------------------------------------
 
 //@ func (*session).Serve
-//@   prop C09
+//@   prop C09 C01
 //@   requires s != nil && s.done != nil && !closed(s.done)
+//@   requires @session-wired s.p != nil && s.dec != nil && s.processingReqs != nil && decoderOK(s.dec)
+//@   requires @handlers-wellformed forall k string :: has(s.p.cmdHdlrs, k) ==> s.p.cmdHdlrs[k] != nil
 //@   modifies all
 //@   ensures @done-closed-on-every-return closed(s.done)
 
